@@ -54,7 +54,6 @@ TCasOk == /\ IsEvent("op") /\ ~Ctl /\ R.k = "cas_weak" /\ R.ok
           /\ R.o = (IF Top(R.t).pc \in {"s_deq", "r_deq"} THEN OrdDeqOk ELSE OrdEnqOk)
           /\ (S_DeqOk(R.t) \/ S_EnqOk(R.t) \/ R_DeqOk(R.t) \/ R_EnqOk(R.t))
           /\ hist'[QLoc(R.l)][Len(hist'[QLoc(R.l)])].val = R.new
-          /\ UNCHANGED <<fsteps, fmark>>
 
 TCasFail == /\ IsEvent("op") /\ ~Ctl /\ R.k = "cas_weak" /\ ~R.ok
             /\ Top(R.t).cur = R.a
@@ -62,22 +61,19 @@ TCasFail == /\ IsEvent("op") /\ ~Ctl /\ R.k = "cas_weak" /\ ~R.ok
             /\ R.fo = (IF Top(R.t).pc \in {"s_deq", "r_deq"} THEN OrdDeqFail ELSE OrdEnqFail)
             /\ (S_DeqFail(R.t) \/ S_EnqFail(R.t) \/ R_DeqFail(R.t) \/ R_EnqFail(R.t))
             /\ NewTop(R.t).cur = R.old
-            /\ UNCHANGED <<fsteps, fmark>>
-
+  
 TCellWrite == IsEvent("cell_write") /\ ~Ctl /\ Top(R.t).idx = R.i /\ S_Write(R.t)
-              /\ UNCHANGED <<fsteps, fmark>>
-TCellTake == IsEvent("cell_take") /\ ~Ctl /\ Top(R.t).idx = R.i /\ R_Take(R.t)
-             /\ UNCHANGED <<fsteps, fmark>>
-
+    TCellTake == IsEvent("cell_take") /\ ~Ctl /\ Top(R.t).idx = R.i /\ R_Take(R.t)
+   
 \* A send returns: either it found the channel full (then this is where the model drops the
 \* value) or its frame already finished with the successful enqueue.
 TRetSend == /\ IsEvent("ret_send") /\ ~Ctl
             /\ IF Top(R.t).pc = "s_deq" /\ Top(R.t).val = R.v
-               THEN S_Full(R.t) /\ UNCHANGED <<fsteps, fmark>>
+               THEN S_Full(R.t)
                ELSE UNCHANGED vars
 TRetRecv == /\ IsEvent("ret_recv") /\ ~Ctl
             /\ IF R.v = 0
-               THEN R_Empty(R.t) /\ UNCHANGED <<fsteps, fmark>>
+               THEN R_Empty(R.t)
                ELSE got # << >> /\ got[Len(got)] + 0 >= 0 /\ UNCHANGED vars
 
 TDeliver == IsEvent("deliver") /\ Deliver(R.t)
